@@ -5,6 +5,8 @@ import vlib
 IMPORTS = "From CRS Require Import Lib.Bytes Model.Mute Judge.Common Judge.C19."
 CLAUSES = {1: "C19 monitor failed on the implementation's trace: a status line was not written, shell output was dropped while not muted (or written "
               "while muted), or 'Unmuting' was not announced exactly when the pause had elapsed since the muting Ctrl+O / the last dropped output",
+           2: "Ctrl+O pressed (as a real key, through the terminal's key handling) while shell output was being written: the mute was never announced "
+              "and/or a later status line was never written - the terminal stopped for good",
            10: "model/implementation differ on what is written, dropped or announced at some instant"}
 EV = {"o": "CtrlO", "p": "Plain", "s": "Status", "l": "Status", "t": "Tick"}
 
@@ -50,14 +52,41 @@ def mo(x, k, ev):
 
 
 def term(c, r):
-    evs = "; ".join("(%d%%Z, %s)" % (e["t"], EV[e["ev"]]) for e in c["events"])
-    obs = []
+    evs, obs = [], []
     for k, (e, o) in enumerate(zip(c["events"], r.get("obs") or [])):
+        if e["ev"] == "b":
+            # a backlog of status line, shell chunk, status line, taken up at one instant: three events of the model
+            raw = o.get("after") or []
+            evs += ["(%d%%Z, Status)" % e["t"], "(%d%%Z, Plain)" % e["t"], "(%d%%Z, Status)" % e["t"]]
+            obs.append("([%s], [%s])" % ("; ".join(mo(o.get("before"), k, e)), "Wrote" if "<Q%d>" % k in raw else ""))
+            obs.append("([], [%s])" % ("Wrote" if "<P%d>" % k in raw else "Dropped"))
+            obs.append("([], [%s])" % ("Wrote" if "<S%d>" % k in raw else ""))
+            continue
+        evs.append("(%d%%Z, %s)" % (e["t"], EV[e["ev"]]))
         after = mo(o.get("after"), k, e)
         if e["ev"] == "p" and "Wrote" not in after:
             after = after + ["Dropped"]
         obs.append("([%s], [%s])" % ("; ".join(mo(o.get("before"), k, e)), "; ".join(after)))
-    return "mk [%s] [%s]" % (evs, "; ".join(obs))
+    if len(r.get("obs") or []) != len(c["events"]):
+        evs = ["(%d%%Z, %s)" % (e["t"], EV.get(e["ev"], "Tick")) for e in c["events"]]
+    return "mk [%s] [%s]" % ("; ".join(evs), "; ".join(obs))
+
+
+def backlog(rng, n):
+    """Ctrl+O, then backlogs (status, chunk, status queued while the terminal is busy) at gaps around the pause, mixed with ordinary events."""
+    out = []
+    gaps = [0, 1, 500, 1999, 2000, 2001]
+    for g1 in gaps:
+        for g2 in gaps:
+            out.append(with_tail([{"t": 0, "ev": "o"}, {"t": g1, "ev": "b"}, {"t": g1 + g2, "ev": "b"}]))
+            out.append(with_tail([{"t": 0, "ev": "b"}, {"t": g1, "ev": "o"}, {"t": g1 + g2, "ev": "b"}]))
+    for _ in range(n):
+        t, evs = 0, []
+        for _ in range(rng.choice([4, 8, 16])):
+            t += rng.choice([0, 1, 5, 250, 1000, 1999, 2000, 2001, 2500, 4001])
+            evs.append({"t": t, "ev": rng.choice("obbpps")})
+        out.append(with_tail(evs))
+    return out
 
 
 def run_cases(run, binp, cases, tag):
@@ -87,7 +116,12 @@ def check(run):
     run.oblige("source obligation: PlainWritePause = 2 s (the model's pause, the statement's 'two seconds')", pause_ms == 2000, "found %s" % pause_ms)
     g = [{"i": k, "events": e} for k, e in enumerate(grid(3 if run.tier == "quick" else 4))]
     rnd = [{"i": k, "events": rand_sched(run.rng)} for k in range(300 if run.tier == "quick" else 5000)]
-    for name, cases, rule in (("grid", g, "EXHAUSTIVE schedules of 1-%d events (Ctrl+O / shell output / status line) with gaps 0, 1, 500, 1999, 2000, 2001 ms - "
+    bl = [{"i": k, "events": e} for k, e in enumerate(backlog(run.rng, 60 if run.tier == "quick" else 2000))]
+    for name, cases, rule in (("backlog", bl, "a backlog in the operator channel (depth 1024, as in the program): while the terminal is busy a status line, a "
+                               "shell chunk and another status line pile up and are then taken at one instant - after Ctrl+O at gaps 0, 1, 500, 1999, 2000, "
+                               "2001 ms, before it, twice in a row, and mixed at random with ordinary events; every status line must be written, the chunk "
+                               "dropped exactly while muted"),
+                              ("grid", g, "EXHAUSTIVE schedules of 1-%d events (Ctrl+O / shell output / status line) with gaps 0, 1, 500, 1999, 2000, 2001 ms - "
                                "gaps just below, at and above the pause - each followed by ticks at +1, +1999, +2000, +2001, +4001 ms" % (3 if run.tier == "quick" else 4)),
                               ("random", rnd, "random millisecond schedules of 5-40 steps with floods (3-14 outputs 0-1999 ms apart), repeated Ctrl+O while "
                                "muted, several mute cycles, status lines through the channel and through Logf")):
@@ -98,6 +132,30 @@ def check(run):
             continue
         vlib.judge_stream(run, name, IMPORTS, "case", cases, res, term, CLAUSES, (0,), rule + "; non-trivial = distinct schedule in which something was "
                           "dropped, an unmute happened or Ctrl+O was repeated while muted", key_fn=lambda c: json.dumps(c["events"]))
+    # Ctrl+O as a real key press, concurrent with writes
+    kc = [{"i": k, "mode": "forced"} for k in range(3 if run.tier == "quick" else 20)]
+    for k in range(6 if run.tier == "quick" else 200):
+        n = run.rng.choice([50, 200, 600])
+        kc.append({"i": len(kc), "mode": "free", "chunks": n, "key_at": run.rng.randrange(0, n)})
+    inf, outf = os.path.join(run.rundir, "key.in"), os.path.join(run.rundir, "key.out")
+    with open(inf, "w") as f:
+        for c in kc:
+            f.write(json.dumps(c) + "\n")
+    env = dict(os.environ, VERIF_CASES=inf, VERIF_OUT=outf, VERIF_TMP=run.rundir)
+    rc, out = vlib.run_under_pty([binp, "-test.run", "^TestVerifCtrlOKey$", "-test.count=1", "-test.timeout", "900s"], env, run.rundir, timeout=1000)
+    kres = [json.loads(l) for l in open(outf)] if os.path.exists(outf) else []
+    if rc != 0 or len(kres) != len(kc) or any(r.get("fail") for r in kres):
+        run.oblige("keypress: harness ran all cases under a pty", False, "rc=%s got %d of %d: %s %s" % (
+            rc, len(kres), len(kc), out[-1500:].decode(errors="replace"), [r["fail"] for r in kres if r.get("fail")][:2]))
+    else:
+        B_ = lambda x: str(bool(x)).lower()
+        vlib.judge_stream(run, "keypress", IMPORTS, "kcase", kc, kres, lambda c, r: "mkk %s %s" % (B_(r.get("muting_announced")), B_(r.get("status_written"))),
+                          CLAUSES, (), "Ctrl+O as a real key press: the real Shell.Do with its input on a pipe, the byte 0x0F going through goxterm's key "
+                          "handling (which runs the Shell's handler with the terminal's lock held) while shell output is being written - 'forced': the "
+                          "handler is held for 100 ms after entry while a chunk's write gets under way (an unlucky but legal schedule, made "
+                          "deterministic); 'free': floods of 50-600 chunks with the key pressed at a random point, real timing; afterwards the mute "
+                          "must have been announced and a later status line written", judge="judge_key",
+                          key_fn=lambda c: json.dumps(c), vkey=lambda i, r, cl: "ctrl-o-during-write")
     run.assumptions += ["Go timers fire at their deadline (testing/synctest's virtual clock = the model's clock); what is due at t fires before the event at t",
                         "terminal rendering by goxterm: presence of the marker text in what reaches stdout counts as 'written'",
                         "the ^O handler is invoked directly (goxterm calls it with its own lock held: a lock-order inversion between Terminal.lock and "
